@@ -7,7 +7,7 @@ import Dawn.Proofs.BuildPath
 # C01, C02, C03, C13, C14 — the incremental engine
 
 Property theorems only. The model (`Dawn/Model/Build.lean`) follows `runTarget.Evaluate`, the two `upToDate` functions,
-`saveTargetInfo`, `dirSum`, `targetInfoPath` and `GC` as they are after the repairs D8, D9, D18, D22, D28; it is tied to the
+`saveTargetInfo`, `dirSum`, `targetInfoPath` and `GC` as they are after the repairs D8, D9, D18, D22, D29; it is tied to the
 source by `Dawn/Ties/Build.lean` and by the correspondence stream `build.history` (every operation of generated
 histories, real engine in a fresh process vs `drv_build`).
 
@@ -17,7 +17,7 @@ Standing hypotheses, all explicit:
   determines, what it reads is declared as a dependency, every generated path has one owner, a source whose file a
   live target generates depends on that target (`link`). The gap this leaves: a body that reads *whichever sources it
   has* (`self.sources` of a `glob`) reads a set its code does not determine, so the general C01 theorems do not speak
-  about a dependency that goes away with the code unchanged. That case is D28: `C01_removed_dependency_counterexample`
+  about a dependency that goes away with the code unchanged. That case is D29: `C01_removed_dependency_counterexample`
   and the example after it are the model's witnesses (parameter `depCount`), the stream `build.history` with glob
   targets and `rmsrc`/`delete` edits is the test.
 * `Nodup ord ∧ Sorted t [] ord`: the runner hands each target to `Evaluate` once, after its dependencies (C04).
@@ -148,7 +148,7 @@ theorem C01_dir_rename_counterexample :
       b3.w.files 20 ≠ (runBuild P exTree exOpts [1, 2, 3] { w2 with recs := fun _ => none }).w.files 20 := by
   decide
 
-/-- D28: `t = 3` reads whatever sources it has (a `glob`, `self.sources`): first the sources `1` and `4`, then — file 11
+/-- D29: `t = 3` reads whatever sources it has (a `glob`, `self.sources`): first the sources `1` and `4`, then — file 11
 deleted, same code, same environment — the source `1` alone. -/
 def exGlobA : Tree := ⟨fun l => match l with
   | 1 => some ⟨.src, [], [], [], false, 0, 10⟩
@@ -161,7 +161,7 @@ def exGlobB : Tree := ⟨fun l => match l with
   | _ => none, [1, 3]⟩
 def exGlobW0 : World := ⟨fun p => if p = 10 then .file 5 else if p = 11 then .file 7 else .missing, fun _ => none, 0, .absent⟩
 
-/-- D28: before the repair a dependency that went away was not noticed: every remaining dependency is listed
+/-- D29: before the repair a dependency that went away was not noticed: every remaining dependency is listed
 unchanged, so the target is skipped, and its output still reflects the deleted file. -/
 theorem C01_removed_dependency_counterexample :
     let P : Params := { exP with depCount := false }
@@ -172,7 +172,7 @@ theorem C01_removed_dependency_counterexample :
       b3.w.files 21 ≠ (runBuild P exGlobB exOpts [1, 3] { w2 with recs := fun _ => none }).w.files 21 := by
   decide
 
-/-- the repaired engine on the D28 history: the record lists one dependency more than the target has, the target
+/-- the repaired engine on the D29 history: the record lists one dependency more than the target has, the target
 re-runs, the output is the clean build's; and the build after that is quiet again -/
 example :
     let w1 := (runBuild exP exGlobA exOpts [1, 4, 3] exGlobW0).w
@@ -186,7 +186,7 @@ example :
 
 /-- C02, the skip decision: a target whose record is not marked, whose own `upToDate` test passes, whose every
 dependency was visited unchanged and is listed with its present stamp, and whose record lists nothing besides (`hlen`:
-as many entries as dependencies — a dependency that went away is a change, D28), is skipped (no body, no `Evaluating`). -/
+as many entries as dependencies — a dependency that went away is a change, D29), is skipped (no body, no `Evaluating`). -/
 theorem C02_no_spurious {P : Params} {t : Tree} {o : Opts} {s : BSt} {l : Label} {d : Def} (hd : t.defs l = some d)
     (hal : o.always = false)
     (hdeps : ∀ y ∈ depsOf t l d, ∃ m, s.memo y = some m ∧ m.ok = true ∧ m.changed = false ∧
